@@ -127,10 +127,24 @@ pub enum Rec {
     AfterDrop(u32),
     Cancel(u32),
     Note(&'static str),
+    /// model: field (cell, field) now has value and durability (0..3)
+    SetField(u32, u32, u16, u8),
+    /// model: untracked cell changed
+    SetUnt(u32, u16),
+    /// model: lru capacity / eviction request
+    SetLru(u32),
+    Evict,
+    Synth(u8),
+    /// reference: node activations (node, arg) a from-scratch evaluation of the preceding request calls
+    RefCalls(Vec<(u32, u16)>),
+    /// observation: number of live result values of lru node n
+    LiveSample(u32, i64),
     // ---- hooks ----
     Dg(DgOp),
     Fp(Site),
     Fault(u32, u64),
+    /// a dependent checked its dependency on interned value K; `true` = slot was reclaimed
+    InternChecked(K, bool),
 }
 
 pub type Stamped = (u64, u8, Rec);
